@@ -17,7 +17,7 @@ func init() {
 	ev.Register(&ev.Check{
 		ID:             "C04",
 		Level:          "exploration",
-		Rule:           "slots = annotated values (also containers under type lists) with a rule set, an example obeying it and, per rule, single-rule corruptions of the example (bound -/+ one step, length +-1, non-matching string, non-member, malformed format, one item too few/many, wrong declared kind, value outside every or-alternative / referenced type). (=>) ALL shapes <= 3 (thorough 4) nodes with every scalar leaf replaced by every slot (good example) plus every slot in 17 nesting contexts (root, property, array element first/later, nested twice, before/after siblings that carry type lists of their own, inside an added user type): whenever Check succeeds Validate(example text) must succeed. (<=) every slot x every context x every corruption: Check must fail and report the byte offset of the corrupted value (renderer's offset map). Non-trivial = distinct rendered schema.",
+		Rule:           "slots = annotated values (also containers under type lists) with a rule set, an example obeying it and, per rule, single-rule corruptions of the example (bound -/+ one step, length +-1, non-matching string, non-member, malformed format, one item too few/many, wrong declared kind, value outside every or-alternative / referenced type). (=>) ALL shapes <= 3 (thorough 4) nodes with every scalar leaf replaced by every slot (good example) plus every slot in 17 nesting contexts (root, property, array element first/later, nested twice, before/after siblings that carry type lists of their own, inside an added user type): whenever Check succeeds Validate(example text) must succeed. (<=) every slot x every context x every corruption: Check must fail and report the byte offset of the corrupted value (renderer's offset map). (pairs) EVERY ordered pair of slots as sibling properties and as sibling array items, both good (verdict = conjunction of the single verdicts; example validates) and with one of the two corrupted in every way (Check must fail at the corrupted sibling's offset). Non-trivial = distinct rendered schema.",
 		Run:            run,
 		Replay:         replay,
 		QuickBudget:    80 * time.Second,
@@ -307,6 +307,9 @@ func evalCase(cs caseT) (string, string) {
 	if r.OK {
 		return "corruption-accepted", fmt.Sprintf("%s: the example value violates its own rule (%s) but Check succeeds", c.Describe(), cs.Slot)
 	}
+	if r2 := lib.Recheck(s); r2.OK {
+		return "corruption-accepted-on-second-check", fmt.Sprintf("%s: the example value violates its own rule (%s): the first Check fails (%s) but a second Check on the same schema object succeeds", c.Describe(), cs.Slot, r)
+	}
 	if !inType && slotNode != nil {
 		rd := gen.Render(c.Root, gen.Canonical)
 		want := rd.ValOff[slotNode]
@@ -347,6 +350,7 @@ func run(c *ev.Ctx) {
 		}
 	}
 	forward(c, ss)
+	pairs(c, ss)
 }
 
 // forward: all shapes with every scalar leaf replaced by every slot.
@@ -465,7 +469,19 @@ func shapesN(n int, f func(*gen.Node)) {
 	obj(n-1, nil)
 }
 
+func replayPair(raw stdjson.RawMessage) (bool, string, bool) {
+	var p pairCase
+	if err := stdjson.Unmarshal(raw, &p); err != nil || p.A == "" {
+		return false, "", false
+	}
+	dir, desc := p.eval(slots())
+	return dir != "", desc, true
+}
+
 func replay(raw stdjson.RawMessage) (bool, string) {
+	if v, d, ok := replayPair(raw); ok {
+		return v, d
+	}
 	var cs caseT
 	if err := stdjson.Unmarshal(raw, &cs); err == nil && cs.Slot != "" {
 		dir, desc := evalCase(cs)
@@ -509,3 +525,8 @@ func ForEachSchemaWithCorruptions(f func(sc.Case)) {
 		}
 	}
 }
+
+// Slots and Types export the slot table and its type environment (C02 uses
+// the scalar slots as sibling rule sets).
+func Slots() []Slot        { return slots() }
+func Types() []sc.TypeDecl { return append([]sc.TypeDecl{}, types...) }
